@@ -651,6 +651,9 @@ fn format_literal(
         ast::Literal::Float16(v) if *v == (*v as i64 as f32) => {
             write!(output, "{}.0h", *v as i64).unwrap()
         }
+        ast::Literal::Float16(v) if *v > i64::MAX as f32 || *v < i64::MIN as f32 => {
+            write!(output, "{v}.0h").unwrap()
+        }
         ast::Literal::Float16(v) => write!(output, "{v}h").unwrap(),
         ast::Literal::Float32(v) if *v == f32::INFINITY => {
             write_infinity_f32(output, context);
